@@ -387,9 +387,10 @@ func (acl *ACL) AuthorizeConnection(conn *net.Conn, cmd []string, command intern
 		return fmt.Errorf("not authorised to run %s command", strings.ToUpper(comm))
 	}
 
-	// 5. Check if command are in ExcludedCommands
+	// 5. Check if command are in ExcludedCommands.
+	// Excluding a command excludes all of its subcommands.
 	if slices.ContainsFunc(connection.User.ExcludedCommands, func(excludedCommand string) bool {
-		return excludedCommand == "*" || excludedCommand == comm
+		return excludedCommand == "*" || excludedCommand == comm || excludedCommand == command.Command
 	}) {
 		return fmt.Errorf("not authorised to run %s command", strings.ToUpper(comm))
 	}
